@@ -48,7 +48,8 @@ class C02(Prop):
              "zero_len_cid_server", "retry", "one_way_capture", "zero_rtt", "crypto_out_of_order", "crypto_multi_packet", "coalesced_3_types",
              "key_update", "key_updates_ge_2", "cid_switch", "pnlen_1", "pnlen_4", "pn_skip", "stream_no_length",
              "multi_stream_frames", "net_dup", "net_loss", "net_reorder", "ipv6", "multi_conn", "retry_id_equals_first_protected_byte",
-             "new_connection_id_of_other_length", "version_negotiation_first"]
+             "new_connection_id_of_other_length", "version_negotiation_first",
+             "connection_id_issued_mid_connection"]
 
     def plan(self, tier):
         p = super().plan(tier)
@@ -196,6 +197,8 @@ class C02(Prop):
                 out.count("reach:new_connection_id_of_other_length")
             if q.get("vneg_prelude"):
                 out.count("reach:version_negotiation_first")
+            if any(f.get("ncid_issue") for f in q["script"]):
+                out.count("reach:connection_id_issued_mid_connection")
             if q["retry"]:
                 out.count("reach:retry")
             if conn.get("retry_id_aimed"):
